@@ -81,10 +81,11 @@ def b_energy(cl, mod, H, which):
             pre = And(zin, line == H[macro], nonneg([a, b]), Implies(R(a) > 0, E(a) > 0), Implies(R(b) > 0, E(b) > 0))
             num = E(a) * R(a) + E(b) * R(b)
             cnt = If(E(a) > 0, 1, 0) + If(E(b) > 0, 1, 0)
-            ref = If(num > 0, num / (R(a) + R(b)), (E(a) + E(b)) / cnt)
-            cl.add('C10/%s/value' % d, ev, And(pre, E(a) + E(b) > 0), okfail(ref),
-                   '%s = (E1 r1 + E2 r2)/(r1+r2) over members (%s,%s) read off the macro name; plain mean of the members that '
-                   'have an energy when no rate exists' % (macro, a, b), functions=fns)
+            # two cases, one claim each (a single claim with a nested If made z3's answer time depend on machine load)
+            cl.add('C10/%s/value' % d, ev, And(pre, num > 0), okfail(num / (R(a) + R(b))),
+                   '%s = (E1 r1 + E2 r2)/(r1+r2) over members (%s,%s) read off the macro name, when a rate exists' % (macro, a, b), functions=fns)
+            cl.add('C10/%s/plain' % d, ev, And(pre, Not(num > 0), E(a) + E(b) > 0), okfail((E(a) + E(b)) / cnt),
+                   '%s = plain mean of the members that have an energy when no rate exists' % macro, functions=fns)
             cl.add('C10/%s/fail' % d, ev, And(pre, Not(E(a) + E(b) > 0)), fail, '%s: error when no member has an energy' % macro, functions=fns)
             cl.add('C10/%s/between' % d, ev, And(pre, E(a) + E(b) > 0),
                    And(Or(And(E(a) > 0, r.rv >= E(a)), And(E(b) > 0, r.rv >= E(b))), Or(r.rv <= E(a), r.rv <= E(b))),
